@@ -22,6 +22,7 @@ type e2eSpec struct {
 	npT, nhT int // thorough
 	nontriv  func(want string) bool
 	posix    bool
+	probes   []string // shapes aimed at this property's mechanisms: run first, before the corpus
 }
 
 type e2eDis struct {
@@ -130,6 +131,11 @@ func runE2E(r *Report, known []Finding, sp e2eSpec) {
 	for i := 0; i < np; i++ {
 		rg := root.Fork(uint64(i) + 1)
 		p := patternSource(rg, i, opts)
+		if i < len(sp.probes) {
+			p = sp.probes[i]
+		} else if j := i - len(sp.probes); j < len(corpusPatterns) && np >= 2*len(corpusPatterns) {
+			p = corpusPatterns[j] // the regression corpus is replayed in full, in order, before anything is generated
+		}
 		if sp.posix && strings.ContainsAny(p, `\?`) && strings.Contains(p, `(?`) {
 			continue
 		}
